@@ -36,6 +36,24 @@ Extracted (every other shape fails closed):
     the order yielded                                                                         -> src_islands_by_submission
   * DaskBFE.__call__: `dvs_1d.reshape((-1, nx))`, chunks `(chunk_size, nx)`, chunk_size `max(1, nf // 10)` or the
     configured one, `fitness_func(dvs_2d).ravel()`                                            -> src_bfe_row_major
+
+ what a worker of a process pool receives (round 2b; pickle hooks)
+  * every class under pyxel/{pipelines,detectors,data_structure,outputs,exposure,observation,calibration} that defines
+    __getstate__ / __setstate__: one row (class, [(attribute __init__ sets, how it comes back)]) with
+      AWhole      `self.A = state["k"]` (also list()/tuple()/dict() of it, or `self.__dict__.update(state)`, or the default
+                  __setstate__) where __getstate__ stored `"k": self.A` (also tuple()/list()/dict()/copy of it, or a copy of
+                  `self.__dict__` from which A was not removed)
+      ARecreated  `self.A = <expr>` with the expression __init__ uses, which mentions neither the state nor a parameter
+                  (only for an attribute no other method of the class assigns or updates)
+      ARebuilt ks `self.A = [ModelFunction(**d) for d in state["k"]]` where __getstate__ stored one dict literal per
+                  element of self.A whose keys ks are constructor arguments of ModelFunction
+      AMissing    not set by __setstate__ (or its key is not in the state)
+    and whether the class has a __deepcopy__ of its own (without one, deep copies go through the same hooks)
+    __reduce__ / __reduce_ex__ / __getnewargs__ / __getnewargs_ex__ / copyreg / any other statement shape: fail closed
+                                                                                              -> src_pickle_hooks
+  * ModelGroup.__iter__: the models of self.models whose `enabled` is set, in order (loop + if + yield, `yield from` /
+    `return` of the filtered generator); ModelGroup.run: `for model in self` calling `model(detector)` once
+                                                                                              -> src_group_runs_enabled_only
 """
 from __future__ import annotations
 
@@ -457,7 +475,385 @@ def bfe_row(tree) -> bool:
     return True
 
 
-TEMPLATE = """From Coq Require Import List Bool.
+
+# ------------------------------------------------------------------------------------------ pickle hooks
+
+PICKLE_DIRS = ("pyxel/pipelines", "pyxel/detectors", "pyxel/data_structure", "pyxel/outputs", "pyxel/exposure",
+               "pyxel/observation", "pyxel/calibration")
+OPAQUE_HOOKS = ("__reduce__", "__reduce_ex__", "__getnewargs__", "__getnewargs_ex__")
+MF_FIELDS = {"func": "FFunc", "name": "FName", "arguments": "FArgs", "enabled": "FEnabled"}
+WRAPPERS = ("list", "tuple", "dict", "copy", "deepcopy", "copy.copy", "copy.deepcopy")
+
+
+def _self_attr(node, self_name="self"):
+    return (node.attr if isinstance(node, ast.Attribute) and isinstance(node.value, ast.Name)
+            and node.value.id == self_name else None)
+
+
+def _init_attrs(fn: ast.FunctionDef) -> dict:
+    """attribute -> list of the expressions __init__ assigns to it (in source order)"""
+    out: dict = {}
+    for n in ast.walk(fn):
+        tgts, val = [], None
+        if isinstance(n, ast.Assign):
+            tgts, val = n.targets, n.value
+        elif isinstance(n, (ast.AnnAssign, ast.AugAssign)):
+            tgts, val = [n.target], n.value
+        for t in tgts:
+            for tt in (t.elts if isinstance(t, ast.Tuple) else [t]):
+                a = _self_attr(tt)
+                if a is not None:
+                    out.setdefault(a, []).append(val if not isinstance(t, ast.Tuple) else None)
+    return out
+
+
+def _unwrap(node):
+    """list(x) / tuple(x) / dict(x) / copy(x) / deepcopy(x) / x.copy() -> x (repeatedly)"""
+    while True:
+        if isinstance(node, ast.Call) and u(node.func) in WRAPPERS and len(node.args) == 1 and not node.keywords:
+            node = node.args[0]
+        elif (isinstance(node, ast.Call) and isinstance(node.func, ast.Attribute) and node.func.attr == "copy"
+              and not node.args and not node.keywords):
+            node = node.func.value
+        else:
+            return node
+
+
+def _state_key(node, state: str):
+    """state["k"] -> "k" """
+    if (isinstance(node, ast.Subscript) and isinstance(node.value, ast.Name) and node.value.id == state
+            and isinstance(node.slice, ast.Constant) and isinstance(node.slice.value, str)):
+        return node.slice.value
+    return None
+
+
+def _is_dict_copy(node) -> bool:
+    """a fresh dict with the content of self.__dict__"""
+    if u(node) in ("{**self.__dict__}", "{**vars(self)}"):
+        return True
+    inner = _unwrap(node)
+    return inner is not node and u(inner) in ("self.__dict__", "vars(self)")
+
+
+def _dict_literal(node):
+    """{"k": v, ..} / dict(k=v, ..) -> {key: value expr}, else None"""
+    if isinstance(node, ast.Dict):
+        if not all(isinstance(k, ast.Constant) and isinstance(k.value, str) for k in node.keys):
+            fail(node, "__getstate__ keys must be string literals")
+        return {k.value: v for k, v in zip(node.keys, node.values)}
+    if isinstance(node, ast.Call) and u(node.func) == "dict" and not node.args and all(k.arg for k in node.keywords):
+        return {k.arg: k.value for k in node.keywords}
+    return None
+
+
+def _getstate_table(fn: ast.FunctionDef | None):
+    """-> (kind, {key: value expr}, removed keys): kind "dict" = the state holds exactly the keys of the table;
+    kind "all" = a copy of self.__dict__ (minus `removed`, keys of the table overridden).  fn None = the default
+    __getstate__ = ("all", {}, set())"""
+    if fn is None:
+        return "all", {}, set()
+    body = body_no_doc(fn)
+    if not body or not isinstance(body[-1], ast.Return) or sum(isinstance(n, ast.Return) for n in ast.walk(fn)) != 1:
+        fail(fn, "__getstate__ must end with its only return")
+    rv = body[-1].value
+    var, kind, tab, removed, loc = None, None, {}, set(), {}
+    for st in body[:-1]:
+        if isinstance(st, ast.Pass):
+            continue
+        if isinstance(st, (ast.Assign, ast.AnnAssign)) and (isinstance(st, ast.AnnAssign) or len(st.targets) == 1):
+            tgt = st.targets[0] if isinstance(st, ast.Assign) else st.target
+            if st.value is None:
+                fail(st, "unknown statement in __getstate__")
+            if isinstance(tgt, ast.Name):
+                d = _dict_literal(st.value)
+                if var is None and d is not None:
+                    var, kind, tab = tgt.id, "dict", dict(d)
+                    continue
+                if var is None and _is_dict_copy(st.value):
+                    var, kind = tgt.id, "all"
+                    continue
+                if tgt.id != var:
+                    loc[tgt.id] = st.value          # a local helper value
+                    continue
+            k = _state_key(tgt, var) if var else None
+            if k is not None:
+                tab[k] = st.value
+                removed.discard(k)
+                continue
+            fail(st, "unknown statement in __getstate__")
+        if var and isinstance(st, ast.Delete) and all(_state_key(t, var) for t in st.targets):
+            for t in st.targets:
+                removed.add(_state_key(t, var))
+                tab.pop(_state_key(t, var), None)
+            continue
+        if (var and isinstance(st, ast.Expr) and isinstance(st.value, ast.Call) and u(st.value.func) == f"{var}.pop"
+                and st.value.args and isinstance(st.value.args[0], ast.Constant) and isinstance(st.value.args[0].value, str)):
+            removed.add(st.value.args[0].value)
+            tab.pop(st.value.args[0].value, None)
+            continue
+        fail(st, "unknown statement in __getstate__")
+    if isinstance(rv, ast.Name) and rv.id == var:
+        pass
+    elif var is None and _dict_literal(rv) is not None:
+        kind, tab = "dict", dict(_dict_literal(rv))
+    elif var is None and _is_dict_copy(rv):
+        kind = "all"
+    else:
+        fail(rv, "__getstate__ must return a dict literal or a copy of self.__dict__")
+    tab = {k: (loc[v.id] if isinstance(v, ast.Name) and v.id in loc else v) for k, v in tab.items()}
+    return kind, tab, removed
+
+
+def _rebuilt(val, state: str, gtab, attr: str):
+    """`[ModelFunction(**d) for d in state["k"]]` (or list(<the same generator>)) with the state holding one dict
+    literal per element of self.<attr> -> the kept constructor keywords, else None"""
+    comp = val
+    if isinstance(val, ast.Call) and u(val.func) in ("list", "tuple") and len(val.args) == 1:
+        comp = val.args[0]
+    if not isinstance(comp, (ast.ListComp, ast.GeneratorExp)) or len(comp.generators) != 1 or comp.generators[0].ifs:
+        return None
+    g = comp.generators[0]
+    k = _state_key(g.iter, state)
+    e = comp.elt
+    if (k is None or not isinstance(g.target, ast.Name) or not isinstance(e, ast.Call) or e.args
+            or len(e.keywords) != 1 or e.keywords[0].arg is not None or u(e.keywords[0].value) != g.target.id):
+        return None
+    if u(e.func) != "ModelFunction":
+        fail(val, "elements rebuilt through a constructor the model does not know")
+    if k not in gtab[1]:
+        if gtab[0] == "all" and k not in gtab[2]:
+            fail(val, "model functions rebuilt from something that is not a definition")
+        return "missing"
+    src = gtab[1][k]
+    if isinstance(src, ast.Call) and u(src.func) in ("list", "tuple") and len(src.args) == 1:
+        src = src.args[0]
+    if not isinstance(src, (ast.ListComp, ast.GeneratorExp)) or len(src.generators) != 1 or src.generators[0].ifs \
+            or u(src.generators[0].iter) != f"self.{attr}" or not isinstance(src.elt, ast.Dict):
+        fail(src, "the stored definitions must be one dict literal per element of the attribute")
+    kept = []
+    for kk in src.elt.keys:
+        if not (isinstance(kk, ast.Constant) and kk.value in MF_FIELDS):
+            fail(src.elt, "unknown constructor keyword in the stored definition")
+        kept.append(MF_FIELDS[kk.value])
+    return kept
+
+
+def _hook_row(cls: ast.ClassDef, ancestors=()):
+    """the row of one class: its own hooks or the nearest inherited ones (ancestors = the scanned base classes, nearest
+    first), judged against every attribute the __init__ of the class and of its ancestors set"""
+    chain = [cls, *ancestors]
+    meths: dict = {}
+    for c in reversed(chain):
+        meths.update({n.name: n for n in c.body if isinstance(n, (ast.FunctionDef, ast.AsyncFunctionDef))
+                      if n.name != "__init__"})
+    for h in OPAQUE_HOOKS:
+        if h in meths:
+            fail(meths[h], f"class {cls.name} defines {h}: what a pickle round trip restores is not known")
+    gs, ss = meths.get("__getstate__"), meths.get("__setstate__")
+    if gs is None and ss is None:
+        return None
+    inits = [n for c in chain for n in c.body if isinstance(n, ast.FunctionDef) and n.name == "__init__"]
+    if not inits:
+        fail(cls, f"class {cls.name} has pickle hooks but no __init__ among the scanned classes")
+    init: dict = {}
+    init_params: set = set()
+    for fn in inits:
+        for a, vals in _init_attrs(fn).items():
+            init.setdefault(a, []).extend(vals)
+        init_params |= set(params_of(fn))
+    gtab = _getstate_table(gs)
+    restored: dict = {}
+    # attributes some OTHER method of the class (or of a scanned ancestor) assigns or updates: they carry state of
+    # their own, so setting them again to what __init__ sets is not a restoration
+    stateful: set = set()
+    for c in chain:
+        for fn in c.body:
+            if isinstance(fn, (ast.FunctionDef, ast.AsyncFunctionDef)) and fn.name not in ("__init__", "__setstate__", "__getstate__"):
+                for n in ast.walk(fn):
+                    tgts = []
+                    if isinstance(n, ast.Assign):
+                        tgts = n.targets
+                    elif isinstance(n, (ast.AnnAssign, ast.AugAssign)):
+                        tgts = [n.target]
+                    elif isinstance(n, ast.Delete):
+                        tgts = n.targets
+                    elif (isinstance(n, ast.Call) and isinstance(n.func, ast.Attribute)
+                          and n.func.attr in ("append", "extend", "update", "add", "pop", "clear", "insert", "remove",
+                                              "setdefault", "popitem")):
+                        tgts = [n.func.value]
+                    for t in tgts:
+                        for tt in (t.elts if isinstance(t, ast.Tuple) else [t]):
+                            while isinstance(tt, ast.Subscript):
+                                tt = tt.value
+                            if _self_attr(tt) is not None:
+                                stateful.add(_self_attr(tt))
+
+    def from_state(attr: str, key: str):
+        kind, tab, removed = gtab
+        if key in tab:
+            if _self_attr(_unwrap(tab[key])) == attr:
+                return "AWhole"
+            fail(tab[key], f"{cls.name}.__getstate__: key {key!r} restored into {attr!r} is not taken from self.{attr}")
+        if kind == "all" and key not in removed:
+            return "AWhole" if key == attr else "AMissing"
+        return "AMissing"
+
+    def all_keys():
+        """default __setstate__ / self.__dict__.update(state): every key of the state becomes the attribute of that name"""
+        for a in init:
+            if a not in restored:
+                restored[a] = from_state(a, a)
+
+    if ss is None:
+        all_keys()
+    else:
+        ps = params_of(ss)
+        if len(ps) != 2:
+            fail(ss, "__setstate__(self, state)")
+        state = ps[1]
+        for st in body_no_doc(ss):
+            if isinstance(st, ast.Pass):
+                continue
+            if isinstance(st, (ast.Assign, ast.AnnAssign)):
+                tgt = st.targets[0] if isinstance(st, ast.Assign) and len(st.targets) == 1 else getattr(st, "target", None)
+                if tgt is not None and u(tgt) == "self.__dict__" and u(_unwrap(st.value)) == state:
+                    all_keys()
+                    continue
+                a = _self_attr(tgt) if tgt is not None else None
+                if a is None or st.value is None:
+                    fail(st, "unknown statement in __setstate__")
+                val = st.value
+                inner = _unwrap(val)
+                k = _state_key(inner, state)
+                if (k is None and isinstance(inner, ast.Call) and u(inner.func) == f"{state}.get" and inner.args
+                        and isinstance(inner.args[0], ast.Constant) and isinstance(inner.args[0].value, str)):
+                    k = inner.args[0].value
+                if k is not None:
+                    restored[a] = from_state(a, k)
+                    continue
+                rb = _rebuilt(val, state, gtab, a)
+                if rb == "missing":
+                    restored[a] = "AMissing"
+                    continue
+                if rb is not None:
+                    restored[a] = "(ARebuilt [" + "; ".join(rb) + "])"
+                    continue
+                names = {n.id for n in ast.walk(val) if isinstance(n, ast.Name)}
+                if state in names or names & init_params:
+                    fail(st, "unknown way of restoring an attribute in __setstate__")
+                if a in init and any(x is not None and u(x) == u(val) for x in init[a]):
+                    if a in stateful:
+                        fail(st, f"{cls.name}.{a} is set again to its initial value although other methods change it")
+                    restored[a] = "ARecreated"
+                    continue
+                fail(st, "attribute set by __setstate__ to something __init__ does not set it to")
+            elif (isinstance(st, ast.Expr) and isinstance(st.value, ast.Call)
+                  and u(st.value.func) in ("self.__dict__.update", "vars(self).update")
+                  and [u(x) for x in st.value.args] == [state] and not st.value.keywords):
+                all_keys()
+            elif (isinstance(st, ast.For) and isinstance(st.target, ast.Tuple) and len(st.target.elts) == 2
+                  and u(st.iter) == f"{state}.items()" and len(st.body) == 1 and not st.orelse
+                  and u(st.body[0]) == f"setattr(self, {u(st.target.elts[0])}, {u(st.target.elts[1])})"):
+                all_keys()
+            else:
+                fail(st, "unknown statement in __setstate__")
+    return cls.name, "__deepcopy__" in meths, [(a, restored.get(a, "AMissing")) for a in sorted(init)]
+
+
+def pickle_rows(repo: Path):
+    classes: dict = {}
+    for d in PICKLE_DIRS:
+        base = repo / d
+        if not base.is_dir():
+            fail(None, f"{d}: directory not found")
+        for f in sorted(base.rglob("*.py")):
+            rel = str(f.relative_to(repo))
+            tree = parse(repo, rel)
+            for n in ast.walk(tree):
+                if isinstance(n, ast.Call) and u(n.func) in ("copyreg.pickle", "copyreg.constructor"):
+                    fail(n, f"{rel}: copyreg registration")
+                if isinstance(n, ast.ClassDef):
+                    hooked = any(isinstance(m, ast.FunctionDef) and m.name in ("__getstate__", "__setstate__") + OPAQUE_HOOKS
+                                 for m in n.body)
+                    if n.name in classes and (hooked or classes[n.name][1]):
+                        fail(n, f"two classes named {n.name}, one with pickle hooks")
+                    classes.setdefault(n.name, (n, hooked))
+
+    def ancestors(n: ast.ClassDef, seen=()):
+        out = []
+        for b in n.bases:
+            nm = u(b).split(".")[-1].split("[")[0]
+            if nm in classes and nm not in seen:
+                out.append(classes[nm][0])
+                out += ancestors(classes[nm][0], seen + (nm,))
+        return out
+
+    rows = []
+    for name in sorted(classes):
+        row = _hook_row(classes[name][0], ancestors(classes[name][0], (name,)))
+        if row is not None:
+            rows.append(row)
+    return rows
+
+
+GROUP = "pyxel/pipelines/model_group.py"
+
+
+def group_runs_enabled_row(tree) -> bool:
+    """ModelGroup.__iter__ yields the models whose `enabled` is set, in the order of self.models, and ModelGroup.run
+    executes what iterating over the group yields (`for model in self: ... model(detector)`)"""
+    it = find_func(tree, "__iter__", "ModelGroup")
+    body = body_no_doc(it)
+    ok = False
+
+    def filtered(gen, elt) -> bool:
+        return (len(gen) == 1 and u(gen[0].iter) == "self.models" and isinstance(gen[0].target, ast.Name)
+                and [u(c) for c in gen[0].ifs] == [f"{gen[0].target.id}.enabled"] and u(elt) == gen[0].target.id)
+
+    if len(body) == 1 and isinstance(body[0], ast.For) and u(body[0].iter) == "self.models" and not body[0].orelse \
+            and isinstance(body[0].target, ast.Name):
+        v = body[0].target.id
+        b = body[0].body
+        if (len(b) == 1 and isinstance(b[0], ast.If) and u(b[0].test) == f"{v}.enabled" and not b[0].orelse
+                and len(b[0].body) == 1 and u(b[0].body[0]) == f"yield {v}"):
+            ok = True
+    elif len(body) == 1 and isinstance(body[0], ast.Expr) and isinstance(body[0].value, ast.YieldFrom):
+        g = body[0].value.value
+        ok = isinstance(g, (ast.GeneratorExp, ast.ListComp)) and filtered(g.generators, g.elt)
+    elif len(body) == 1 and isinstance(body[0], ast.Return) and body[0].value is not None:
+        g = body[0].value
+        if isinstance(g, ast.Call) and u(g.func) == "iter" and len(g.args) == 1:
+            g = g.args[0]
+        ok = isinstance(g, (ast.GeneratorExp, ast.ListComp)) and filtered(g.generators, g.elt)
+    if not ok:
+        fail(it, "ModelGroup.__iter__ must yield the models of self.models whose `enabled` is set, in order")
+    run = find_func(tree, "run", "ModelGroup")
+    loops = [n for n in ast.walk(run) if isinstance(n, ast.For) and u(n.iter) == "self"]
+    if len(loops) != 1 or not isinstance(loops[0].target, ast.Name):
+        fail(run, "ModelGroup.run must execute `for model in self`")
+    v = loops[0].target.id
+    execs = [n for n in ast.walk(loops[0]) if isinstance(n, ast.Call) and u(n.func) == v
+             and [u(a) for a in n.args] + [u(k.value) for k in n.keywords] == ["detector"]]
+    if len(execs) != 1:
+        fail(loops[0], "ModelGroup.run must call every model it iterates over exactly once with the detector")
+    if any(isinstance(n, ast.For) and n is not loops[0] and u(n.iter) in ("self.models", "self") for n in ast.walk(run)):
+        fail(run, "a second loop over the models in ModelGroup.run")
+    return True
+
+
+def render_hooks(rows) -> str:
+    body = ";\n  ".join('mkHook "%s" %s [%s]' % (c, "true" if dc else "false", "; ".join('("%s", %s)' % (a, r) for a, r in attrs))
+                         for c, dc, attrs in rows)
+    return ("\n(* pickle hooks (__getstate__ / __setstate__) of the classes whose objects travel to the workers of a process\n"
+            "   pool: for every attribute __init__ sets, how it comes back from a round trip *)\n"
+            "Definition src_pickle_hooks : list hook_row := [\n  " + body + "\n]%string.\n"
+            "\n(* ModelGroup.__iter__ yields the models whose `enabled` is set, in the order of self.models, and ModelGroup.run\n"
+            "   calls exactly those (`executed` of Model/Parallel.v) *)\n"
+            "Definition src_group_runs_enabled_only : bool := true.\n")
+
+
+TEMPLATE = """From Coq Require Import String.
+From Coq Require Import List Bool.
 From PyxelV Require Import Model.Parallel.
 Import ListNotations.
 
@@ -479,11 +875,15 @@ Definition src_bfe_row_major : bool := {bfe}.
 """
 
 
+HOOKS_UNCHANGED = [("ModelGroup", True, [("_log", "ARecreated"), ("_name", "AWhole"), ("models", "AWhole")])]
+
+
 def render(seq, prod, custom, bind="BindPosition", same=True, names=True, types=True, tuples=True, fidx=True,
-           isl=True, bfe=True) -> str:
+           isl=True, bfe=True, hooks=None) -> str:
     b = lambda x: "true" if x else "false"  # noqa: E731
-    return HEADER + TEMPLATE.format(seq=seq, prod=prod, custom=custom, bind=bind, same=b(same), names=b(names),
-                                    types=b(types), tuples=b(tuples), fidx=b(fidx), isl=b(isl), bfe=b(bfe))
+    return (HEADER + TEMPLATE.format(seq=seq, prod=prod, custom=custom, bind=bind, same=b(same), names=b(names),
+                                     types=b(types), tuples=b(tuples), fidx=b(fidx), isl=b(isl), bfe=b(bfe))
+            + render_hooks(HOOKS_UNCHANGED if hooks is None else hooks))
 
 
 def rows(repo: Path) -> dict:
@@ -498,8 +898,10 @@ def rows(repo: Path) -> dict:
     fidx = file_index_row(dask)
     isl = islands_row(parse(repo, ARCHI))
     bfe = bfe_row(parse(repo, UDEF))
+    hooks = pickle_rows(repo)
+    group_runs_enabled_row(parse(repo, GROUP))
     return dict(seq=seq, prod=prod, custom=custom, bind=bind, same=same, names=names, types=types, tuples=True,
-                fidx=fidx, isl=isl, bfe=bfe)
+                fidx=fidx, isl=isl, bfe=bfe, hooks=hooks)
 
 
 def translate(repo: Path) -> str:
